@@ -397,6 +397,41 @@ pub fn run_c11(out: &mut Out, tier: &str, seed: u64) {
         many_cases(out, &mut rng, &g, &doc, true);
         schema_cases(out, &mut rng, &g, &doc);
     }
+    // documents that repeat member names: every path of the set is answered as single-path get answers it (the
+    // first occurrence), a repeated name neither ends the walk early nor shortens what an enclosing path returns
+    let cfgd = Cfg { dup_free: false, ..docs_cfg() };
+    for i in 0..ndocs / 2 {
+        let g = gen::gen_doc(&mut rng, &cfgd);
+        let g = if i % 2 == 0 { repeat_members(&g, &mut rng) } else { g };
+        let doc = gen::render_doc(&g, &mut rng, &cfgd);
+        out.count("many:repeated-names");
+        many_cases(out, &mut rng, &g, &doc, true);
+        many_cases(out, &mut rng, &g, &doc, true);
+    }
+}
+
+/// the same tree with some members of its objects written a second time (same name, another value)
+fn repeat_members(g: &G, rng: &mut Rng) -> G {
+    match g {
+        G::Obj(ms) => {
+            let mut out: Vec<_> = Vec::new();
+            for (k, raw, v) in ms {
+                out.push((k.clone(), raw.clone(), repeat_members(v, rng)));
+            }
+            let n = out.len();
+            if n > 0 {
+                for _ in 0..rng.range(1, 2) {
+                    let (k, raw, _) = out[rng.below(n)].clone();
+                    let other = out[rng.below(n)].2.clone();
+                    let at = rng.below(out.len() + 1);
+                    out.insert(at, (k, raw, other));
+                }
+            }
+            G::Obj(out)
+        }
+        G::Arr(xs) => G::Arr(xs.iter().map(|x| repeat_members(x, rng)).collect()),
+        other => other.clone(),
+    }
 }
 
 // ---------------------------------------------------------------- C12
